@@ -57,8 +57,16 @@ pub fn trie(sigma: &[char], l: usize) -> Vec<String> {
 /// all 2^k ASCII case flips of w (only the first `maxk` ASCII letters are flipped)
 pub fn flips(w: &str, maxk: usize) -> Vec<String> {
     let cs: Vec<char> = w.chars().collect();
-    let pos: Vec<usize> =
-        cs.iter().enumerate().filter(|(_, c)| c.is_ascii_alphabetic()).map(|(i, _)| i).take(maxk).collect();
+    let all: Vec<usize> = cs.iter().enumerate().filter(|(_, c)| c.is_ascii_alphabetic()).map(|(i, _)| i).collect();
+    // more letters than the bound: flip the first and the last maxk/2 letters (long spellings often differ at the end)
+    let pos: Vec<usize> = if all.len() <= maxk {
+        all
+    } else {
+        let h = maxk / 2;
+        let mut p: Vec<usize> = all[..h].to_vec();
+        p.extend_from_slice(&all[all.len() - (maxk - h)..]);
+        p
+    };
     let mut out = Vec::with_capacity(1 << pos.len());
     for mask in 0u32..(1u32 << pos.len()) {
         let mut v = cs.clone();
